@@ -509,14 +509,104 @@ fn level4(ctx: &Ctx, report: &mut Report) -> usize {
     n
 }
 
+
+/// Level 5: strings that outlive a program.  An embedding may keep what it read from a global, a function it
+/// compiled, or a string it made itself, across later programs on the same interpreter and across `reset`;
+/// a string made before and a string of the same bytes made afterwards are still one string to `==`, to
+/// maps, to tuple keys and to global names.
+fn level5(ctx: &Ctx, report: &mut Report) -> usize {
+    use crate::expect::{self, Expect};
+    let targets: Vec<(&str, Vec<String>)> = vec![
+        ("ab", vec!["\"ab\"".into(), "\"a\" + \"b\"".into(), "\"${\"a\"}b\"".into(), "\"xabx\"[1..3]".into(), "\"ab|c\".split(\"|\")[0]".into(), "String.from_ascii([97, 98])".into(), "[\"ab\"].iter().collect()[0]".into()]),
+        ("\u{e9}", vec!["\"\u{e9}\"".into(), "\"a\u{e9}b\"[1]".into(), "String.from_utf8([195, 169])".into(), "\"x\u{e9}\".replace(\"x\", \"\")".into()]),
+        ("", vec!["\"\"".into(), "\"a\"[0..0]".into(), "\"\" + \"\"".into()]),
+        ("12", vec!["\"12\"".into(), "String.from(12)".into(), "\"${1}${2}\"".into()]),
+        (LONG40, long_producers(LONG40).into_iter().take(5).collect()),
+    ];
+    let probes = |k: usize| -> String {
+        format!(
+            "var fill = [];\nfor i in 0..{k} {{ fill.push(\"h{k}_\" + String.from(i)); }}\nprint(p1 == p2);\nvar m = {{p1: \"hit\"}};\nprint(m.get(p2));\nm.insert(p2, \"again\");\nprint(m.len());\nprint({{(p1, 1): 5}}.get((p2, 1)));\nprint(p1 + \"!\" == p2 + \"!\");\nprint(p1 == p2 + \"x\");\nprint(p1.len() == p2.len());\n",
+            k = k
+        )
+    };
+    let expected: Vec<String> = ["true", "hit", "1", "5", "true", "false", "true"].iter().map(|s| s.to_string()).collect();
+    let ok = || "ok".to_string();
+    let mut cases: Vec<Expect> = Vec::new();
+    let mk = |family: &'static str, snippets: Vec<String>, out: Vec<Vec<String>>, d: serde_json::Value| -> Expect {
+        let n = snippets.len();
+        Expect { family, request: Request { op: "run".into(), snippets, fuel: Some(2_000_000), ..Default::default() }, out, end: vec!["ok".to_string(); n], describe: d, nontrivial: true }
+    };
+    let _ = ok;
+    for (target, prods) in &targets {
+        for (i, p1) in prods.iter().enumerate() {
+            for (j, p2) in prods.iter().enumerate() {
+                for k in [0usize, 7] {
+                    let d = json!({"target": target, "first": p1, "second": p2, "fresh_strings_between": k});
+                    // a value read from a global, kept across a reset and handed back
+                    cases.push(mk(
+                        "level5_value_kept_across_reset",
+                        vec![format!("var p1 = {};\n", p1), "\u{0}host:keep_global:p1".into(), "\u{0}reset".into(), "\u{0}host:restore_global:p1".into(), format!("var p2 = {};\n{}", p2, probes(k))],
+                        vec![vec![], vec![], vec![], vec![], expected.clone()],
+                        d.clone(),
+                    ));
+                    // the same without a reset: the second program on the same interpreter
+                    cases.push(mk("level5_second_program", vec![format!("var p1 = {};\n", p1), format!("var p2 = {};\n{}", p2, probes(k))], vec![vec![], expected.clone()], d.clone()));
+                    // a compiled function kept by the embedding, run before and after a reset
+                    if i <= j {
+                        let prog = format!("var p1 = {};\nvar p2 = {};\n{}", p1, p2, probes(k));
+                        cases.push(mk(
+                            "level5_compiled_function_kept_across_reset",
+                            vec![format!("\u{0}host:compile_keep:{}", prog), "\u{0}run_kept:0".into(), "\u{0}reset".into(), "\u{0}run_kept:0".into(), "\u{0}reset".into(), "\u{0}run_kept:0".into()],
+                            vec![vec![], expected.clone(), vec![], expected.clone(), vec![], expected.clone()],
+                            d.clone(),
+                        ));
+                    }
+                }
+            }
+            // a string the host makes (before / after a reset) against a string the program makes
+            for when in ["before", "after"] {
+                let make = format!("\u{0}host:make_string_global:p1:{}", target);
+                let prog = format!("var p2 = {};\n{}", p1, probes(3));
+                let (snips, outs) = if when == "before" {
+                    (vec![make.clone(), "\u{0}host:keep_global:p1".into(), "\u{0}reset".into(), "\u{0}host:restore_global:p1".into(), prog], vec![vec![], vec![], vec![], vec![], expected.clone()])
+                } else {
+                    (vec!["var junk = \"some\" + \"thing\";\n".to_string(), "\u{0}reset".into(), make.clone(), prog], vec![vec![], vec![], vec![], expected.clone()])
+                };
+                cases.push(mk("level5_host_made_string", snips, outs, json!({"target": target, "program_makes": p1, "host_makes_it": when})));
+            }
+            // a function of an earlier program kept across a reset: what it builds meets what it spells
+            let lit = prods[0].clone();
+            cases.push(mk(
+                "level5_closure_kept_across_reset",
+                vec![
+                    format!("fn check() {{ var k = {}; return [k == {}, {{{}: 1}}.get(k)]; }}\nprint(check());\n", p1, lit, lit),
+                    "\u{0}host:keep_global:check".into(),
+                    "\u{0}reset".into(),
+                    "\u{0}host:restore_global:check".into(),
+                    "print(check());\n".into(),
+                ],
+                vec![vec!["[true, 1]".into()], vec![], vec![], vec![], vec!["[true, 1]".into()]],
+                json!({"target": target, "builds": p1}),
+            ));
+        }
+    }
+    let n = cases.len();
+    let st = expect::run_expect(ctx, &ctx.runner_checked, cases.into_iter(), &|_e, _r| None, &|_e, _p| None);
+    report.cov("level5_by_family", json!(st.by_family));
+    report.violations.extend(st.violations);
+    n
+}
+
 pub fn run(ctx: &Ctx) -> Report {
     let mut report = Report::new();
     let (states, transitions, max_cap, max_chain, samples) = level1(ctx, &mut report);
     let (n2, ncaps) = level2(ctx, &mut report);
     let (t3, n3, cap3, growths3) = level3(ctx, &mut report);
     let n4 = level4(ctx, &mut report);
+    let n5 = level5(ctx, &mut report);
     let transitions = transitions + t3;
-    let n2 = n2 + n4;
+    let n2 = n2 + n4 + n5;
+    report.cov("level5_histories", json!(n5));
     report.cov("level3_ladder_length", json!(n3));
     report.cov("level3_lookups_and_insertions_checked", json!(t3));
     report.cov("level3_capacities_grown_to", json!(growths3));
@@ -528,7 +618,7 @@ pub fn run(ctx: &Ctx) -> Report {
     report.cov("evaluations", json!(transitions + n2));
     report.cov("distinct_nontrivial", json!(states + n2));
     report.cov("exhaustive", json!(true));
-    report.cov("rule", json!("level 1: breadth-first search over every sequence of intern/probe operations on keys with designed hashes (collisions in the low 2/3/4 bits, an identical-full-hash pair, the empty string, fillers) up to the depth bound; a state is the real table's slot array; every transition is executed on the real table (fresh table, history replayed) and compared with a reference map; invariants checked in every state. level 2: every (sampled in quick: half of the) ordered pair of producers of each target string with k fresh strings created before and between, k over the filler set: equality, map selection, tuple-key selection, inequality of one-byte-different strings; a global defined under a host-created name; the targets include two long strings (40 and 70 bytes) cut out of longer ones at offsets 1-9, and strings the interpreter itself makes (messages of the errors it raises, as a handler sees them). level 3: growth at every size - after n = 0..N filler keys of two families each of eight trigger keys (hashes chosen against the table's current capacity) is interned on a fresh copy of the real table, the whole slot array is compared with the reference and the invariants, and after an insertion that grew the table the key, the first, the middle and the last filler are looked up again. level 4: ladders of n strings produced twice by different producers through the language (compared and used as map keys at once and again at the end), collecting at every allocation for the short ones, and programs declaring and reading up to 1600/3200 global names."));
+    report.cov("rule", json!("level 1: breadth-first search over every sequence of intern/probe operations on keys with designed hashes (collisions in the low 2/3/4 bits, an identical-full-hash pair, the empty string, fillers) up to the depth bound; a state is the real table's slot array; every transition is executed on the real table (fresh table, history replayed) and compared with a reference map; invariants checked in every state. level 2: every (sampled in quick: half of the) ordered pair of producers of each target string with k fresh strings created before and between, k over the filler set: equality, map selection, tuple-key selection, inequality of one-byte-different strings; a global defined under a host-created name; the targets include two long strings (40 and 70 bytes) cut out of longer ones at offsets 1-9, and strings the interpreter itself makes (messages of the errors it raises, as a handler sees them). level 3: growth at every size - after n = 0..N filler keys of two families each of eight trigger keys (hashes chosen against the table's current capacity) is interned on a fresh copy of the real table, the whole slot array is compared with the reference and the invariants, and after an insertion that grew the table the key, the first, the middle and the last filler are looked up again. level 4: ladders of n strings produced twice by different producers through the language (compared and used as map keys at once and again at the end), collecting at every allocation for the short ones, and programs declaring and reading up to 1600/3200 global names. level 5: strings that outlive a program - for every ordered pair of producers of five target strings: a value read from a global, kept by the embedding across a reset and handed back, against a string made afterwards; the same across two programs without a reset; a compiled function kept and run again after one and two resets; a string the host makes before or after a reset against one the program makes; a function of an earlier program kept across a reset."));
     report.cov("bounds", json!({"level1_depth": if ctx.thorough() { 10 } else { 8 }, "level1_keys": pool(ctx.thorough()).len(), "level2_programs": n2}));
     report.cov("level1_max_capacity_reached", json!(max_cap));
     report.cov("level1_longest_probe_displacement", json!(max_chain));
